@@ -16,6 +16,21 @@ CHECKS = {
  'C17': ('exploration', 'differential runtime monitor of the quiescence move generator plus an event log (hook) of every quiescence node visited by real searches, both checked against the rules oracle',
          'generate_quiescence_moves is compared with {legal moves that capture, promote or check} on millions of positions, and a hook logs (position, in-check, moves examined) at every quiescence node of real depth 1-2 searches; each logged node is checked against the same set, or against all legal moves when in check.',
          'Trusts the rules oracle and the q-log hook (it only copies the move vector the search is about to iterate).', '2 C17'),
+ 'C10': ('exploration', 'exhaustive differential runtime check of the live lookup tables against ray walks and board geometry',
+         'Every subset of the full rays of every square is looked up in the real tables (rook 1 048 576, bishop 71 168 occupancies, queen both) and compared with a ray walk; millions of random 64-bit occupancies additionally check f(occ) == f(occ & rays); all 128 leaper sets and all 4032 ordered square pairs (segment and whole line) are compared with geometry. Exhaustive over the finite space that can influence a lookup, hence the strongest level this family offers.',
+         'Trusts the dozen-line ray-walk/geometry reference. End squares of the segment/line sets are accepted either way (documented convention, no caller depends on it); a == b is not constrained.', '2 C10'),
+ 'C11': ('exploration', 'runtime monitor of hash equality/inequality relations across many freshly drawn key sets',
+         'For hundreds to thousands of key sets drawn by the engine itself and thousands of positions each: in-place board vs FEN-rebuilt board with other counters vs transposed move order must hash equal; every valid single-component variation (piece removed/recoloured/retyped/relocated/added, two squares exchanged, side flipped, each right toggled, ep none/file/other file) must hash differently; no collisions among the distinct positions of a key set.',
+         'A spurious 64-bit equality has probability < 1e-12 per run. ep variations are only judged when an ep capture is legal (both conventions then agree the positions differ).', '2 C11'),
+ 'C12': ('exploration', 'hooked observation of the real go parser: relational oracle over recorded budgets',
+         'The real command handler is driven in-process with tens of thousands of go commands (hostile clock/increment values, all 24 token orders, both sides to move); a hook records the budget handed to the search. Checked: identical budget when only the opponent values or the order change; budget <= remaining; budget < remaining when any time remains. No formula is assumed.',
+         'Observes the budget given to find_best_move, not the time actually used (that is C07). Token sets are the four pairs, optionally followed by movestogo.', '2 C12'),
+ 'C14': ('exploration', 'metamorphic runtime monitor of the evaluator (side swap, mirror, purity, bound)',
+         'Millions of positions (games, synthetic, nine-queen extremes, promotion races): evaluate on a long-lived evaluator vs a fresh one (incl. A,B,A), exact negation under side swap, equality under mirror-with-colour-exchange, independence of rights/ep/counters, |score| < 30000.',
+         'Bound is 30000 against a +-32767 window (today about 12 100 at most, reported in the evidence).', '2 C14'),
+ 'C15': ('exploration', 'online trace checker: store/retrieve histories against a reference map',
+         'Tens of millions of operations in random histories on hostile key sets (0, 1, MAX, one-bit neighbours, keys equal in the low 16/20/24/32 or high 32 bits, depths around 0/127/128/255, None moves, extreme scores) are checked operation by operation against a ten-line depth-preferred reference map; the held state is re-observed before each store so a legitimately lossy table is not accused.',
+         'A retrieve returning nothing is always accepted (the property allows it); the run requires hits, misses, refusals and both kinds of replacement to have been observed.', '2 C15'),
 }
 NOT_YET = 'monitor designed in DESIGN.md section 2 but not built yet in this revision'
 
